@@ -18,10 +18,17 @@ import tempfile
 
 import numpy as np
 
-from common import wiring_pre_build as pre_build  # noqa: E402,F401  (regenerates Generated/Wiring.lean from the tested tree)
+from common import all_pre_build as pre_build  # noqa: E402,F401  (regenerates Generated/{Wiring,Setup,...}.lean from the tested tree)
 
-LEAN_MODULES = ["PyomaVerif.Props.C15", "PyomaVerif.Mutants.C15", "PyomaVerif.Props.WiringGuard"]
+LEAN_MODULES = ["PyomaVerif.Props.C15", "PyomaVerif.Mutants.C15", "PyomaVerif.Props.WiringGuard", "PyomaVerif.Props.WiringSetup"]
 THEOREMS = [
+    # run protocol of BaseSetup / BaseAlgorithm read off the source (translate_setup.py -> Generated/Setup.lean)
+    "PV.WiringSetup.C15_prerun_from_source",
+    "PV.WiringSetup.C15_setup_mpe_from_source",
+    "PV.WiringSetup.C15_protocol_not_overridden",
+    "PV.WiringSetup.C15_fresh_defaults",
+    "PV.WiringSetup.C15_mpe_order_from_source",
+    "PV.WiringSetup.C14_set_data_from_source",
     # class-layer wiring, regenerated from /repo on every run (translate_wiring.py)
     "PV.WiringGuard.C15_mpe_guarded_from_source",
     "PV.WiringGuard.C15_mpe_from_plot_guarded_from_source",
